@@ -155,6 +155,8 @@ class Evaluator(object):
         self.inline_filter = inline_filter
         self.events = []
         self.tyenv = {}
+        self.try_ifs = set()
+        self.last_let_subject = None
         self.names = {}
         self.mutated = {}
         self._mut_cache = {}
@@ -320,6 +322,8 @@ class Evaluator(object):
         the other branch."""
         out = []
         k = e.get('k')
+        if k == 'If' and e['sp'] in self.try_ifs:
+            return out
         if k == 'If':
             ctt = self.cond_term(e['cond'], env)
             ct = show(ctt)
@@ -602,7 +606,26 @@ class Evaluator(object):
             gt = guards + [Guard((node['sp'], 'then', 'if', cs, c, extra))]
             # `if let` bindings
             tenv = dict(env)
+            ev0 = len(self.events)
             tt = self.eval(node['then'], tenv, gt, fn, chain)
+            if extra is not None and node.get('else') is None and (node['cond']['init'].get('ty') or '').lstrip('&').startswith('std::result::Result<'):
+                # `if let Err(e) = r { return Err(e) }` is the explicit spelling of `r?;`
+                import canon
+                if canon.whole(node['cond']['pat'], node['cond']['init'].get('ty')) == {'Err'} and self.block_diverges(node['then']):
+                    inner = self.events[ev0:]
+                    rets = [x for x in inner if x.kind == 'ret']
+                    others = [x for x in inner if x.kind not in ('ret', 'ctor', 'struct') and not (x.kind == 'call' and x.callee == 'Err')]
+                    m = re.match(r'^let (.+?) = (.+)$', cs)
+                    if len(rets) == 1 and not others and rets[0].term is not None and rets[0].term[0] == 'call' and rets[0].term[1] == 'Err' and m:
+                        # the subject as the full evaluator saw it is not kept as a term by LetExpr: recover it from the init
+                        sv = self.last_let_subject
+                        payload_err = ('field', sv, 'Err.0') if sv is not None else None
+                        gterm = rets[0].term[2][0]
+                        if payload_err is not None and gterm == payload_err:
+                            del self.events[ev0:]
+                            self.emit('try', ('try', sv), node, guards, fn, chain)
+                            self.try_ifs.add(node['sp'])
+                            return ('unit',)
             s = 'if %s {%s}' % (cs, show(tt))
             if node.get('else') is not None:
                 ge = guards + [Guard((node['sp'], 'else', 'if', cs, c, extra))]
@@ -616,6 +639,7 @@ class Evaluator(object):
             return ('ctl', s)
         if k == 'LetExpr':
             v = self.eval(node['init'], env, guards, fn, chain)
+            self.last_let_subject = v
             self.bind_pat(node['pat'], self.payload_of(v, node['pat']), env)
             return ('ctl', 'let %s = %s' % (H.pat_term(node['pat'], True), show(v)))
         if k == 'Match':
@@ -639,6 +663,7 @@ class Evaluator(object):
             mty = node['scrut'].get('ty')
             earlier = []
             earlier_preds = []
+            arm_info = []
             minfo = canon.variants_of(mty)
             for i, a in enumerate(node['arms']):
                 aenv = dict(env)
@@ -659,10 +684,15 @@ class Evaluator(object):
                 if a.get('guard') is not None:
                     gt = self.eval(a['guard'], aenv, g, fn, chain)
                     g = g + [Guard((a['sp'], 'guard', 'armguard', show(gt), gt))]
+                ev0 = len(self.events)
                 bt = self.eval(a['body'], aenv, g, fn, chain)
                 parts.append('%s => %s' % (pt, show(bt)))
+                arm_info.append((a, canon.whole(a['pat'], mty) if a.get('guard') is None else None, bt, ev0, len(self.events)))
                 if not self.block_diverges(a['body']):
                     live_vals.append(bt)
+            red = self.reduce_result_match(node, sc, arm_info, guards, fn, chain)
+            if red is not None:
+                return red
             # a match whose other arms all diverge evaluates to its one live arm
             if len(live_vals) == 1 and live_vals[0][0] != 'ctl':
                 return live_vals[0]
@@ -675,6 +705,61 @@ class Evaluator(object):
         if k == 'Repeat':
             return ('call', 'repeat', (self.eval(node['e'], env, guards, fn, chain),), ())
         return ('ctl', '<%s>' % k)
+
+    def reduce_result_match(self, node, sc, arm_info, guards, fn, chain):
+        """`match r { Ok(v) => .., Err(e) => <hand e on> }` is the explicit spelling of `r?` / `r.map(..)` /
+        `r.map_err(..)?`: give it the same term and events as the operator form."""
+        if not (node['scrut'].get('ty') or '').lstrip('&').startswith('std::result::Result<') or len(arm_info) != 2:
+            return None
+        ok = [x for x in arm_info if x[1] == {'Ok'}]
+        er = [x for x in arm_info if x[1] == {'Err'}]
+        if len(ok) != 1 or len(er) != 1:
+            return None
+        (oa, _, obt, o0, o1), (ea, _, ebt, e0, e1) = ok[0], er[0]
+        payload_ok, payload_err = ('field', sc, 'Ok.0'), ('field', sc, 'Err.0')
+        err_events = self.events[e0:e1]
+        # the Err arm only hands the error on: `Err(e)` as the arm's value, or `return Err(e)`, e possibly mapped
+        returned = None
+        if self.block_diverges(ea['body']):
+            rets = [x for x in err_events if x.kind == 'ret']
+            others = [x for x in err_events if x.kind not in ('ret', 'ctor', 'struct') and not (x.kind == 'call' and x.callee in ('Err',))]
+            if len(rets) != 1 or others:
+                return None
+            returned = rets[0].term
+            diverging = True
+        else:
+            others = [x for x in err_events if x.kind not in ('ctor', 'struct') and not (x.kind == 'call' and x.callee in ('Err',))]
+            if others:
+                return None
+            returned = ebt
+            diverging = False
+        if returned is None or returned[0] != 'call' or returned[1] != 'Err' or len(returned[2]) != 1:
+            return None
+        g = returned[2][0]
+        if g == payload_err:
+            subject = sc
+        elif any(t == payload_err for t in subterms(g)):
+            subject = ('call', 'std::result::Result::map_err', (sc, ('closure', 'explicit', (('$c0', -1),), replace(g, payload_err, ('var', '$c0', -1)))), ())
+        else:
+            return None
+        if diverging:
+            # let v = match r { Ok(v) => v, Err(e) => return Err(e) }   ==   r?
+            if self.block_diverges(oa['body']) or obt[0] == 'ctl':
+                return None
+            keep = self.events[:e0] + self.events[e1:] if e0 >= o1 else self.events[:e0] + self.events[e1:]
+            del self.events[:]
+            self.events.extend(keep)
+            for i, x in enumerate(self.events):
+                x.idx = i
+            t = ('try', subject)
+            self.emit('try', t, node, guards, fn, chain)
+            return replace(obt, payload_ok, t)
+        # match r { Ok(v) => Ok(f(v)), Err(e) => Err(e) }   ==   r.map(|v| f(v))  (canonical: Ok(f(r?)))
+        if obt[0] == 'call' and obt[1] == 'Ok' and len(obt[2]) == 1:
+            t = ('try', subject)
+            self.emit('try', t, node, guards, fn, chain)
+            return ('call', 'Ok', (replace(obt[2][0], payload_ok, t),), ())
+        return None
 
     def payload_of(self, val, pat):
         # binding through a variant pattern: keep the scrutinee so bind_pat can project
@@ -715,6 +800,9 @@ class Evaluator(object):
             return args[0]
         if ndecl == 'std::string::String::new' and not args:
             return ('lit', '""')
+        if npath == 'std::result::Result::and' and len(args) == 2 and args[1] is not None and args[1][0] == 'call' and args[1][1] == 'Ok':
+            self.emit('try', ('try', args[0]), node, guards, fn, chain)
+            return args[1]
         if len(args) == 1 and npath.split('::')[-1] == 'key' and npath.startswith('std::collections::hash_map::'):
             # the key of the entry obtained for key k is k
             a = args[0]
@@ -818,6 +906,49 @@ def guard_strs(g):
             out.append('%s(%s)' % ('if' if p is True else 'unless', s_) if isinstance(p, bool) else 'case(%s ~ %s)' % (s_, p))
         return out
     return []
+
+
+def _hands_error_on(body, pat):
+    """body is `Err(e)` / `return Err(e)` / `{ return Err(e); }` with e the error bound by `Err(e)` (possibly converted)."""
+    b = body
+    while b.get('k') == 'Block' and not (b['stmts'] and b.get('expr') is not None) and (len(b['stmts']) == 1 or (not b['stmts'] and b.get('expr') is not None)):
+        b = b['expr'] if b.get('expr') is not None else b['stmts'][0].get('e', {})
+        if b is None:
+            return False
+    if b.get('k') == 'Ret':
+        b = b.get('e') or {}
+    b = H.peel(b)
+    if b.get('k') != 'Call' or (b['f'].get('path') or '').split('::')[-1] != 'Err' or len(b['args']) != 1:
+        return False
+    binds = [x['id'] for x in H.pat_bindings(pat)]
+    if len(binds) != 1:
+        return False
+    return any(n.get('k') == 'Local' and n['id'] == binds[0] for n in H.walk(b['args'][0]))
+
+
+def is_propagate_match(node):
+    """Static shape of `match r { Ok(v) => .., Err(e) => <hand e on> }` on a Result."""
+    import canon
+    if node.get('k') != 'Match' or node.get('src') != 'Normal' or len(node['arms']) != 2:
+        return False
+    ty = node['scrut'].get('ty') or ''
+    if not ty.lstrip('&').startswith('std::result::Result<'):
+        return False
+    ws = [canon.whole(a['pat'], ty) if a.get('guard') is None else None for a in node['arms']]
+    if {'Ok'} not in ws or {'Err'} not in ws:
+        return False
+    ea = node['arms'][ws.index({'Err'})]
+    return _hands_error_on(ea['body'], ea['pat'])
+
+
+def is_propagate_iflet(node):
+    import canon
+    if node.get('k') != 'If' or node['cond'].get('k') != 'LetExpr' or node.get('else') is not None:
+        return False
+    ty = node['cond']['init'].get('ty') or ''
+    if not ty.lstrip('&').startswith('std::result::Result<') or canon.whole(node['cond']['pat'], ty) != {'Err'}:
+        return False
+    return _hands_error_on(node['then'], node['cond']['pat'])
 
 
 def iter_view(itt):
